@@ -264,13 +264,16 @@ namespace Givaro {
 
 	PolElement& div (PolElement& r, const PolElement& a, const PolElement& b) const
             {
-		return _pD.modin( _pD.mulin( inv(r, b), a), _irred );
+		PolElement ib; // r may be the same object as a
+		inv(ib, b);
+		return mul(r, a, ib);
             }
 
 	PolElement& axpy (PolElement& r, const PolElement& a, const PolElement& b, const PolElement& c) const
             {
                     //         return _pD.modin( _pD.addin(_pD.mul( r, a, b), c), _irred );
                     //          return _pD.modin( _pD.axpy(r, a, b, c), _irred );
+		if (&r == &c) { PolElement cc(c); return addin(mul(r,a,b),cc); } // r may be the same object as c
 		return addin(mul(r,a,b),c);
             }
 
